@@ -731,6 +731,7 @@ pub fn run_history(ctx: &mut Ctx, src: &mut Source, seed: u64) -> Option<History
     let mut sched = Rng::new(mix(seed, 0x5C4ED));
     let mut rolled_back = false;
     let mut aborted_by_reopen = false;
+    let mut rolled_back_since_open = false;
     // tables that got a column added while they held rows (old rows keep the old record layout)
     let mut widened_tables: Vec<String> = vec![];
     let mut ever_long = false;
@@ -1136,8 +1137,16 @@ pub fn run_history(ctx: &mut Ctx, src: &mut Source, seed: u64) -> Option<History
         if matches!(op, Op::Rollback | Op::RollbackTo(_)) && actual.is_ok() {
             rolled_back = true;
         }
-        if matches!(op, Op::CloseReopen | Op::DropReopen) && in_txn_before {
-            aborted_by_reopen = true;
+        // a reopen after work that did not commit (transaction still open, or rolled back since
+        // the last open): whatever that work advanced only in memory is gone
+        if matches!(op, Op::Rollback | Op::RollbackTo(_)) && actual.is_ok() {
+            rolled_back_since_open = true;
+        }
+        if matches!(op, Op::CloseReopen | Op::DropReopen) {
+            if in_txn_before || rolled_back_since_open {
+                aborted_by_reopen = true;
+            }
+            rolled_back_since_open = false;
         }
         if let Op::AddColumn { table, .. } = op {
             if actual.is_ok() && view_before.tables.get(table).map_or(false, |t| !t.rows.is_empty()) && !widened_tables.contains(table) {
@@ -1305,7 +1314,12 @@ pub fn run_history(ctx: &mut Ctx, src: &mut Source, seed: u64) -> Option<History
                     sig2.push(("ddl", ddl_since_reopen.join("+")));
                     ctx.violate("C21", "ddl-not-persisted", &sig2, format!("after {} (DDL since the previous open: {}): {}", desc, ddl_since_reopen.join(", "), d.detail), None);
                 }
-                ctx.stop = true;
+                // a COUNT(*) that disagrees while every row agrees (the count is kept in the table
+                // header) does not invalidate the model: the history goes on, which lets the other
+                // things kept in the header (AUTO_INCREMENT counter, root page) show as well
+                if d.what != "count" || ctx.profile != "autoinc" {
+                    ctx.stop = true;
+                }
             }
             qrec = Some((plan, obs));
         }
